@@ -43,6 +43,10 @@ def norm_pairs(pairs):
     """candidate lists of unresolved columns are sets: compare them order-insensitively"""
     out = set()
     for a, b in pairs:
+        if "?" not in a and a.count(".") == 1:
+            # the root is a column of a subquery that nothing feeds (a constant defined in a derived table / CTE): the property speaks of
+            # base-table columns, so such roots are left out on both sides (the implementation reports them for named references only)
+            continue
         if "?" in a:
             name, cands = a.split("?", 1)
             a = name + "?" + "|".join(sorted(cands.split("|")))
@@ -74,7 +78,8 @@ def classify(case, detail):
     feats = set(case.get("features") or [])
     d = case.get("dialect")
     what = detail.get("what", "")
-    if "setop_first_branch_sourceless_item" in feats and _retargeted_only(detail):
+    if "setop_first_branch_sourceless_item" in feats and what == "column pairs differ":
+        # positions shift from the first source-less item on; inside a derived table other roots end up under the target names
         return "K-union-literal@C02"
     if d == "clickhouse" and "explicit_view_columns" in feats and _retargeted_only(detail):
         return "K-clickhouse-view-collist@C02"
@@ -277,6 +282,8 @@ def item_kinds():
         ("cast_colons", lambda q1, q2: ir.Item(ir.Cast(C(q1, "c1"), "int", "::")), None),
         ("window", lambda q1, q2: ir.Item(ir.Win("sum", (C(q1, "c1"),), (C(q1, "c2"),), (C(q2 or q1, "c3"),)), "o1"), None),
         ("parenthesised", lambda q1, q2: ir.Item(ir.Paren(ir.Bin("-", C(q1, "c1"), C(q2 or q1, "c2"))), "o1"), None),
+        ("constant", lambda q1, q2: ir.Item(ir.Lit("1"), "o1", True), None),
+        ("constant_null", lambda q1, q2: ir.Item(ir.Cast(ir.Lit("NULL"), "int", "cast"), "o1", True), None),
         ("star", lambda q1, q2: ir.Item(ir.Star(None)), "star"),
         ("qualified_star", lambda q1, q2: ir.Item(ir.Star(q1)), "qstar"),
     ]
@@ -298,7 +305,12 @@ def skeletons():
             if special == "qstar" and len(groups) == 1 and not groups[0].joins and False:
                 ok = False
             ctes += tuple(c)
-            items = (ib(q1, q2),) if special in ("star", "qstar") else (ib(q1, q2), ir.Item(ir.Col(q1, "k")))
+            if special in ("star", "qstar"):
+                items = (ib(q1, q2),)
+            elif iname.startswith("constant"):
+                items = (ir.Item(ir.Col(q1, "c2")), ib(q1, q2), ir.Item(ir.Col(q1, "k")))  # the constant sits BETWEEN two columns: positions matter
+            else:
+                items = (ib(q1, q2), ir.Item(ir.Col(q1, "k")))
             q = ir.Select(items, groups)
             # nesting: wrap in derived tables that pass the named outputs through
             for lvl in range(nest):
@@ -314,7 +326,7 @@ def skeletons():
         if ctes:
             body = ir.With(ctes, body)
         tgt = ir.T("s9", "tgt")
-        ncols = 1 if special in ("star", "qstar") else 2
+        ncols = 1 if special in ("star", "qstar") else (3 if iname.startswith("constant") else 2)
         cols = tuple(f"t{i + 1}" for i in range(ncols))
         if collist == "none":
             stmt = ir.Insert(tgt, None, body, "INSERT INTO", False)
